@@ -50,6 +50,7 @@ struct Tk { int t; bool prot_ok; bool intact; bool enc;
             bool retransmit = false;   // DTLS: byte-identical handshake message with a message_seq already used: receivers ignore it
             bool epoch_bad = false;    // DTLS: record header names an epoch that is not the sender's current one: dropped
             bool epoch_later = false;  // ... and it is a later one
+            bool seq_zero = false;     // ... and the resulting number is 0
             bool seq_bad = false;      // DTLS: handshake message_seq is not the next one (gap or repeat): ignored as future / as retransmission
           };
 struct Verdict { int viol_at = -1, done_at = -1, unk_at = -1; bool weak = false; std::string why, sig; };   // sig: failure signature (root-cause class) to use if the victim completes anyway
@@ -77,7 +78,7 @@ static Verdict judge(bool victim_server, bool ecdhe, bool cauth, bool resumed, c
         const Tk &x = tk[i];
         if (dtls) {
             if (k == e.size()) continue;                                   // after completion everything else is dropped, ignored or delivered; nothing to require here
-            if (x.retransmit) continue;
+            if (x.retransmit) { if (x.epoch_bad || !x.prot_ok) v.weak = true; continue; }   // a retransmission that is itself damaged: dropped or refused
             bool record_only = x.t == T_APP || x.t == T_WARN;
             if (record_only) { v.weak = true; continue; }                  // dropped or refused - either way not delivered (checked separately)
             // MatrixSSL re-sends its CCS+Finished flight with a fresh CCS and the next epoch each time, and accepts the same from its peer: a further CCS where
@@ -86,7 +87,8 @@ static Verdict judge(bool victim_server, bool ecdhe, bool cauth, bool resumed, c
             if (x.epoch_bad) { v.viol_at = (int) i; v.why = "record on the wrong epoch (dropped by a correct receiver, yet part of the sender's transcript)"; v.sig = fmt("completed-with-wrong-epoch-%s", tok_name[x.t]); break; }
             // a ClientHello may legitimately start at message_seq 0 with a cookie it kept (RFC 6347 4.2.1): numbering of the hellos is the stateless server's business
             // (likewise MatrixSSL takes a ServerHello numbered 0 after a HelloVerifyRequest numbered 0, as DTLS 1.0-era servers sent it)
-            if (x.seq_bad && (x.t == T_CH || x.t == T_SH)) { v.unk_at = (int) i; break; }
+            if (x.seq_bad && (x.t == T_HVR || x.t == T_HR)) { v.unk_at = (int) i; break; }   // never hashed by either side: ignoring it as a retransmission leaves a consistent handshake
+            if (x.seq_bad && x.seq_zero) { v.unk_at = (int) i; break; }   // MatrixSSL exempts message_seq 0 from its retransmission test (parseSSLHandshake: `msn != 0 && lastMsn >= msn`): a message re-numbered 0 is taken
             if (x.seq_bad) { v.viol_at = (int) i; v.why = "handshake message_seq is not the next one"; v.sig = fmt("completed-with-bad-message-seq-%s", tok_name[x.t]); break; }
         }
         // ciphertext in a plaintext alert record is an alert with a random level/description: almost always read as some warning and ignored
@@ -471,7 +473,7 @@ static std::vector<Mode> enum_modes() {
 }
 
 static std::vector<Tk> tokenize(const std::vector<Item> &it, bool dtls = false) {
-    std::vector<Tk> tk; bool w_enc = false; int epoch = 0; std::set<int> sent_before;
+    std::vector<Tk> tk; bool w_enc = false; int epoch = 0, next_seq = 0; std::set<int> sent_before;
     for (auto &x : it) {
         Tk k; k.t = item_tok(x);
         if (x.st.msg == pup::M_ALERT && !(x.st.payload.size() == 2 && x.st.payload[0] == 1 && x.st.payload[1] != 0)) k.t = T_OTHER;
@@ -482,6 +484,7 @@ static std::vector<Tk> tokenize(const std::vector<Item> &it, bool dtls = false) 
             k.retransmit = x.st.resend && is_hs_item(x) && sent_before.count(x.st.msg);   // the puppet re-sends the stored bytes only if it sent this message before; otherwise it builds it
             k.epoch_bad = x.st.epoch_override >= 0 && x.st.epoch_override != epoch; k.epoch_later = x.st.epoch_override > epoch;
             k.seq_bad = x.st.seq_skip != 0 && is_hs_item(x);
+            if (is_hs_item(x) && !k.retransmit) { int ms = next_seq + x.st.seq_skip; if (ms < 0) ms = 0; k.seq_zero = ms == 0; next_seq = ms + 1; }
         }
         tk.push_back(k); sent_before.insert(x.st.msg);
         if (x.st.msg == pup::M_CCS) { w_enc = true; epoch++; }
